@@ -62,6 +62,10 @@ pub fn verif_set_runtime_feature(feature: u8) {
     RUNTIME_FEATURE.store(feature, Ordering::Relaxed);
 }
 
+/// Verification hook: the ids under which the three backends are cached (avx2, sse4.2, scalar).
+#[cfg(httparse_verif)]
+pub const VERIF_BACKEND_IDS: [u8; 3] = [AVX2, SSE42, NOP];
+
 /// Verification hook: read the cached runtime backend id.
 #[cfg(httparse_verif)]
 pub fn verif_runtime_feature() -> u8 {
